@@ -366,7 +366,7 @@ def r2_sum(src, ctx):
             mids = segs[1:k]
             if any(m[0] not in ('filter', 'map', 'filter_map') for m in mids):
                 raise Unsupported('sum chain with adapter ' + ','.join(names))
-            recv = src[ct[r0].s:ct[dot].s]
+            recv = re.sub(r'\s*\.\s*', '.', src[ct[r0].s:ct[dot].s].strip())
             var = None
             conds = []; mapped = None; fm = None
             for name, (lo, hi), _, _ in mids:
@@ -395,7 +395,7 @@ def r2_sum(src, ctx):
                 inner = f'if {c} {{ {inner} }}'
             sum_seg = segs[k]
             end = ct[sum_seg[1][1]].e
-            new = f'({{ let mut {acc} = Decimal::ZERO; for {var} in {recv}.{it}() {{ {inner} }} {acc} }})'
+            new = f'({{ let mut {acc} = Decimal::ZERO;\nfor {var} in {recv}.{it}() {{\n{inner}\n}}\n{acc} }})'
             before = re.sub(r'\s+', ' ', src[ct[r0].s:end])
             src = src[:ct[r0].s] + new + src[end:]
             ctx.log.append(('R2', before, new))
@@ -457,34 +457,34 @@ def r3_loops(src, ctx, map_locals=()):
             if mm and m:
                 iv = ctx.fresh('i')
                 e = mm.group(1).strip(); k = mm.group(2).strip()
-                new = f'{{ let mut {iv}: usize = {k}; while {iv} < {e}.len() /*DEC*/ decreases {e}.len() - {iv} {{ let {m.group(1)} = {iv}; let {m.group(2).strip()} = &{e}[{iv}]; {iv} += 1;'
+                new = f'{{ let mut {iv}: usize = {k}; while {iv} < {e}.len() /*DEC*/ decreases {e}.len() - {iv} {{\nlet {m.group(1)} = {iv}; let {m.group(2).strip()} = &{e}[{iv}]; {iv} += 1;\n'
                 close_extra = ' }'
                 rule = 'R3'
             if new is None:
                 mm = re.match(r'^(.*)\[(.*)\.\.(.*)\]\s*\.iter\(\)\s*\.enumerate\(\)$', expr, re.S)
                 if mm and m:
                     e, a, b = [x.strip() for x in mm.groups()]
-                    new = f'for {m.group(1)} in 0..({b} - {a}) {{ let {m.group(2).strip()} = &{e}[{a} + {m.group(1)}];'
+                    new = f'for {m.group(1)} in 0..({b} - {a}) {{\nlet {m.group(2).strip()} = &{e}[{a} + {m.group(1)}];\n'
                     rule = 'R3'
             if new is None:
                 mm = re.match(r'^(.*)\.iter\(\)\s*\.enumerate\(\)$', expr, re.S)
                 if mm and m:
                     e = mm.group(1).strip()
-                    new = f'for {m.group(1)} in 0..{e}.len() {{ let {m.group(2).strip()} = &{e}[{m.group(1)}];'
+                    new = f'for {m.group(1)} in 0..{e}.len() {{\nlet {m.group(2).strip()} = &{e}[{m.group(1)}];\n'
                     rule = 'R3'
             if new is None:
                 mm = re.match(r'^&\s*(.*)\[(.*)\.\.(.*)\]$', expr, re.S)
                 if mm and not expr.startswith('&mut'):
                     e, a, b = [x.strip() for x in mm.groups()]
                     ov = ctx.fresh('o')
-                    new = f'for {ov} in 0..({b} - {a}) {{ let {pat} = &{e}[{a} + {ov}];'
+                    new = f'for {ov} in 0..({b} - {a}) {{\nlet {pat} = &{e}[{a} + {ov}];\n'
                     rule = 'R3'
             if new is None:
                 mm = re.match(r'^&mut\s+(.*)$', expr, re.S) or re.match(r'^(.*)\.iter_mut\(\)$', expr, re.S)
                 if mm:
                     e = mm.group(1).strip()
                     iv = ctx.fresh('i')
-                    new = f'{{ let mut {iv}: usize = 0; while {iv} < {e}.len() /*DEC*/ decreases {e}.len() - {iv} {{ let {pat} = &mut {e}[{iv}]; {iv} += 1;'
+                    new = f'{{ let mut {iv}: usize = 0; while {iv} < {e}.len() /*DEC*/ decreases {e}.len() - {iv} {{\nlet {pat} = &mut {e}[{iv}]; {iv} += 1;\n'
                     close_extra = ' }'
                     rule = 'R4'
             if new is None and 'enumerate' in expr:
@@ -502,14 +502,14 @@ def r3_loops(src, ctx, map_locals=()):
                     else:
                         e = re.sub(r'\.into_iter\(\)$', '', expr)
                         ctor = f'verif_into_iter({e})'
-                    new = f'{{ let mut {itv} = {ctor}; while {itv}.has_next() /*DEC*/ decreases {itv}.rest().len() {{ let {pat} = {itv}.next_val();'
+                    new = f'{{ let mut {itv} = {ctor}; while {itv}.has_next() /*DEC*/ decreases {itv}.rest().len() {{\nlet {pat} = {itv}.next_val();\n'
                     close_extra = ' }'
                     rule = 'R12'
                 elif not by_value and _has_continue(ct, bo, bc):
                     mm = re.match(r'^&\s*(\w[\w.]*)$', expr) or re.match(r'^(\w[\w.]*)\.iter\(\)$', expr)
                     if not mm: raise Unsupported('for-loop with continue over ' + expr)
                     e = mm.group(1); iv = ctx.fresh('i')
-                    new = f'{{ let mut {iv}: usize = 0; while {iv} < {e}.len() /*DEC*/ decreases {e}.len() - {iv} {{ let {pat} = &{e}[{iv}]; {iv} += 1;'
+                    new = f'{{ let mut {iv}: usize = 0; while {iv} < {e}.len() /*DEC*/ decreases {e}.len() - {iv} {{\nlet {pat} = &{e}[{iv}]; {iv} += 1;\n'
                     close_extra = ' }'
                     rule = 'R3'
             if new is None: continue
@@ -532,7 +532,7 @@ def r12_skip_by_value(src, ctx):
             if not mm: continue
             bc = match_close(ct, bo)
             itv = ctx.fresh('it')
-            new = f'{{ let mut {itv} = verif_into_iter_skip({mm.group(1).strip()}, {mm.group(2).strip()}); while {itv}.has_next() /*DEC*/ decreases {itv}.rest().len() {{ let {pat} = {itv}.next_val();'
+            new = f'{{ let mut {itv} = verif_into_iter_skip({mm.group(1).strip()}, {mm.group(2).strip()}); while {itv}.has_next() /*DEC*/ decreases {itv}.rest().len() {{\nlet {pat} = {itv}.next_val();\n'
             before = re.sub(r'\s+', ' ', src[ct[i_for].s:ct[bo].e])
             src = src[:ct[i_for].s] + new + src[ct[bo].e:ct[bc].e] + ' }' + src[ct[bc].e:]
             ctx.log.append(('R12', before, new))
@@ -604,7 +604,7 @@ def r7_collect(src, ctx):
             if not names or names[-1] != 'collect': continue
             head = names[0]
             mids = segs[1:-1]
-            recv = src[ct[r0].s:ct[dot].s].strip()
+            recv = re.sub(r'\s*\.\s*', '.', src[ct[r0].s:ct[dot].s].strip())
             end = ct[segs[-1][1][1]].e
             # context: `let [mut] NAME: TYPE = <chain>;` or tail expression
             # find start of statement
@@ -647,7 +647,7 @@ def r7_collect(src, ctx):
                 fin = v
             inner = push
             for c in reversed(conds): inner = f'if {c} {{ {inner} }}'
-            new = f'{{ let mut {v} = Vec::new(); for {var} in {recv}.{head}() {{ {inner} }} {fin} }}'
+            new = f'{{ let mut {v} = Vec::new();\nfor {var} in {recv}.{head}() {{\n{inner}\n}}\n{fin} }}'
             before = re.sub(r'\s+', ' ', src[ct[r0].s:end])
             src = src[:ct[r0].s] + new + src[end:]
             ctx.log.append(('R7', before, re.sub(r'\s+', ' ', new)))
